@@ -141,6 +141,7 @@ type Gen struct {
 	globalAddr    map[*ssa.Global]int
 	frameDone     bool
 	abstractMod   bool
+	indexFn       bool
 	only          map[ssa.Instruction]bool // init@var: slice (nil: execute everything)
 	stableSuffix  []string                 // struct fields no callee writes (ASSUMED, from `stable` clauses): pkg_Type_field
 	stableSeen    map[string]bool
